@@ -513,8 +513,8 @@ class Respondent(httping.Parsent):
                            httping.MOVED_PERMANENTLY,
                            httping.FOUND,
                            httping.SEE_OTHER,
-                           httping.TEMPORARY_REDIRECT):
-            self.redirectant = True
+                           httping.TEMPORARY_REDIRECT) and self.headers.get("location"):
+            self.redirectant = True  # nowhere to redirect to without location
 
         self.headed = True
         yield True
